@@ -7,7 +7,7 @@
     any subset of panicking calls, spurious wake-ups included.  [code_cfg] is
     the configuration read from pool.rs by tools/extract_consts.py. *)
 From DivanV Require Import Base.Res Generated.Consts Generated.Consts2 Model.Pool Proofs.Pool Proofs.PoolLive Proofs.PoolCalls
-  Proofs.PoolViews Proofs.PoolSlots Proofs.PoolExamples Proofs.PoolBool.
+  Proofs.PoolViews Proofs.PoolSlots Proofs.PoolExamples Proofs.PoolBool Proofs.PoolMonitor.
 Import PoolM.
 
 (** Obligations on the generated constants: the worker unparks iff [fetch_sub]
@@ -136,6 +136,21 @@ Theorem C06_boolean_invariants : forall scr s,
   reachable code_cfg scr s -> inv_all code_cfg s = true.
 Proof. exact (fun scr s => inv_all_reachable code_cfg scr s C06_cfg_good). Qed.
 Print Assumptions C06_boolean_invariants.
+
+(** The boolean specification that is evaluated on IMPLEMENTATION traces
+    (PoolMon, driver modes c06.sb / c07.sb) holds of the model: for every
+    script and every execution [ls] of the model from [init scr] (any
+    interleaving, any panicking subset, spurious wake-ups), the monitor run on
+    the event trace that the execution induces ([PoolMon.trace], the same
+    label/event correspondence that ocaml/pool.ml applies to implementation
+    tokens) reports no violated clause — at any point of the execution, since
+    every prefix of an execution is an execution.  [panics s'] is the panicking
+    subset the execution chose. *)
+Theorem C06_monitor_model : forall scr ls s',
+  run code_cfg (init scr) ls = Some s' ->
+  PoolMon.violations (panics s') (PoolMon.trace code_cfg (init scr) ls) = [].
+Proof. exact (fun scr ls s' => monitor_safe code_cfg scr ls s' C06_cfg_good). Qed.
+Print Assumptions C06_monitor_model.
 
 (** The hypotheses above are satisfiable together by a non-trivial execution:
     script [2; 1] (worker reuse), call (1,1) panics, one wake-up by token, one
